@@ -8,6 +8,10 @@ CLAIMED = {
    text="Bounded symbolic model checking of the real arithmetic code: the MIR of Number::{add,sub,mul,div,abs,floor,ceiling,floor_quotient,floor_remainder}, upcast_oprands, the builtins + - * / (n-ary folds) and the numeric arms of eval_primitive is executed symbolically over operands of symbolic variant and full-width i32 components; z3 decides exactness against an oracle over Q (cross-multiplication in Z), bit-exact IEEE binary32 contagion, division-by-exact-zero, and freedom from panics below the property's 2^15 bound. Unit tests sample forty tuples; this covers every tuple in the bound, including both signs of both denominators.",
    note="Trusted: rustc's MIR as the semantics of the code (LLVM/codegen not covered), the ~40 small std models listed in the evidence, z3 (cvc5 re-discharges in thorough). Bounds: returning paths at full i32 width in dev-profile MIR; no-panic clause below 2^15 (2^7 for the two-step floor-quotient/-remainder); folds of 0..3 (quick) / 0..4 (thorough) arguments; release-profile (wrapping) MIR only in thorough. Whole-program evaluation of arithmetic expressions is outside. The encoder is validated on every run against the native build on >=800 concrete tuples.",
    ref="DESIGN.md section 4 (C09)"),
+ "C10": dict(
+   text="Bounded symbolic model checking of the real comparison code: the MIR of PartialEq/PartialOrd for Number, exact_eqv, the builtins = < > <= >= (typed_comparision!), max/min (first_of_order!) and eqv? is executed symbolically; z3 decides agreement with the mathematical order (sign-aware cross-multiplication in Z for exact operands, IEEE order of the binary32 conversions for mixed ones), n-ary = conjunction of adjacent pairs, max/min = an extreme argument with contagion, eqv? = same exactness and equal, plus antisymmetry and transitivity of the implementation alone. Every internal representation (negative denominators, unreduced ratios) is compared with every other, which the suite's eight tuples cannot do.",
+   note="Trusted: rustc MIR semantics, the std models listed in the evidence, z3. Bounds: binary order/equality at full i32 width and all binary32 values; n-ary predicates and max/min for 0..3 (quick) / 0..4 (thorough) exact arguments below 2^15, mixed-exactness arguments through the builtins only pairwise and only in the thorough tier; order laws below 2^15. Feasibility queries that the solver cannot decide quickly are treated as feasible (over-approximation). Evaluation of comparison expressions in whole programs is outside.",
+   ref="DESIGN.md section 4 (C10)"),
 }
 NA = {}
 def main():
@@ -40,6 +44,7 @@ def main():
         "notes": "exit 0 = held on everything explored (KNOWN-FINDING lines for listed, still-reproducing defects); exit 1 + VIOLATION line = reproduced new violation; exit 2 = inconclusive (encoder/solver could not decide; never reported as success). known_findings.json lists findings and fixed: records.",
     }
     json.dump(m, open(os.path.join(V, "MANIFEST.json"), "w"), indent=1)
-SOURCE_COMMITS = ["8a1fb00 fix: floor and ceiling of a ratio round in the right direction for every sign combination"]
+SOURCE_COMMITS = ["8a1fb00 fix: floor and ceiling of a ratio round in the right direction for every sign combination",
+                  "1b29fe7 fix: compare ratios correctly when their denominators have opposite signs"]
 if __name__ == "__main__":
     main()
